@@ -483,3 +483,41 @@ def workdir(pid):
     d = os.path.join(BUILD, "work", pid)
     os.makedirs(d, exist_ok=True)
     return d
+
+
+def run_replay_pair(harness_exe, mode, cases_text, workdir, timeout=900, env=None, exe_args=()):
+    """Implementation first; the model driver then replays the implementation's
+    log (ops + oracle values) and re-derives every observable.  Returns
+    (impl_rc, impl_lines_without_prop, prop_lines, impl_err, model_rc, model_lines, model_err)."""
+    os.makedirs(workdir, exist_ok=True)
+    cf = os.path.join(workdir, mode + ".cases")
+    with open(cf, "w") as f:
+        f.write(cases_text)
+    drv = build_model()
+    irc, iout, ierr = run([harness_exe, cf] + list(exe_args), timeout=timeout, env=env or san_env())
+    lf = os.path.join(workdir, mode + ".implog")
+    with open(lf, "w") as f:
+        f.write(iout)
+    mrc, mout, merr = run(["bash", "-c", "ulimit -s unlimited; exec \"$0\" \"$1\" \"$2\"", drv, mode, lf], timeout=timeout)
+    il = [l for l in iout.split("\n")]
+    return irc, il, ierr, mrc, mout.split("\n"), merr
+
+
+def diff_cases(il, ml, skip_prefixes=("prop ",)):
+    """Compare per case; returns (cases_impl, diffs, props) where diffs is a list of
+    dicts and props maps case -> list of prop lines."""
+    ic, mc = split_cases(il), split_cases(ml)
+    diffs, props = [], {}
+    for k, li in ic.items():
+        props[k] = [l for l in li if l.startswith("prop ")]
+        a = [l for l in li if not l.startswith(skip_prefixes)]
+        b = mc.get(k)
+        if b is None:
+            diffs.append({"case": k, "kind": "model produced no output for this case"})
+            continue
+        if a != b:
+            d = next((i for i in range(min(len(a), len(b))) if a[i] != b[i]), min(len(a), len(b)))
+            diffs.append({"case": k, "line": d, "impl": a[d] if d < len(a) else None,
+                          "model": b[d] if d < len(b) else None,
+                          "context": a[max(0, d - 3):d]})
+    return ic, diffs, props
